@@ -436,9 +436,5 @@ def replay(path):
     common.ensure_built()
     it = d['replay']['item']
     r = case(tuple(it))
-    print(r.get('verdict'), r.get('violations') or r.get('why'))
-    common.cleanup_scratch()
-    if r.get('verdict') == 'violated':
-        print('VIOLATION property=%s replay=%s' % (PROP, path))
-        return 1
-    return 0
+    from ..framework import replay_result
+    return replay_result(PROP, r, path)
